@@ -46,13 +46,13 @@ CHECKS = {
                 text="For each PDU/value/syntax: histories over decode-prefix, decode-garbage, RESET, re-decode, encode, failing callback, FREE_CONTENTS_ONLY, FREE; and for "
                      "every decoder and encoder call the failure of the k-th allocation for each k reached (capped); the ledger decides leaks / encoder-held allocations, "
                      "RESET must leave zero bytes and a later decode must equal a decode into a fresh structure.",
-                note="Single allocation fault per call; k capped (24 quick / 120 thorough); allocator interposed by --wrap on the libc names."),
+                note="Single allocation fault per call; k capped (24 quick / 120 thorough); the output callback fails once at every call index (first 16); one module with long strings so that staging buffers flush inside open-type bodies; allocator interposed by --wrap on the libc names."),
     "C15": dict(level="exploration", engine="vdriver", ref="DESIGN.md 4/C15",
                 technique="adversarial-input workload in a small-stack thread with process-signal, allocation-ledger and watchdog monitors",
                 text="Recursive/collection types are decoded from model-built nesting bombs (depth 10..10^5, 10^6 thorough; BER definite/indefinite/constructed strings, XER, UPER, OER), "
                      "maximal length prefixes and zero-width element floods, in a 256 KiB-stack thread with default and caller-supplied max_stack_size; death by signal = stack "
                      "exhaustion; ledger peak must stay below 64 KiB + 8 KiB per input byte.",
-                note="Fixed module; depth bounded; heap constant deliberately generous; plain build for stack clause, ASan build for memory errors."),
+                note="Fixed module; depth bounded; nesting also inside TLVs the decoder only skips (unknown extension additions, ANY); heap constant deliberately generous; ledger ceiling 256 MiB stops runaway decoders; plain build for stack clause, ASan build for memory errors."),
     "C07": dict(level="fault_enumeration", engine="vdriver", ref="DESIGN.md 4/C07",
                 technique="fault enumeration over encoder calls (callback failure index, buffer size, allocation failure) with ASan red zones and a return-value/errno monitor",
                 text="For valid, constraint-violating and walker-damaged structures and each of the five encoders: counting callback, callback failure at every "
@@ -65,20 +65,20 @@ CHECKS = {
                 text="The asn1c of the current tree is run on generated single- and multi-module sets and on the shipped modern-syntax corpus: twice (three times) under "
                      "perturbed ASLR, MALLOC_PERTURB_, environment size and build flavour with all emitted files compared; under permutations of the file list with the "
                      "per-type files compared; and through asn1c -E / -E -F print, re-parse, re-print (fixpoint) and, for generated modules, asn1c -P equality.",
-                note="Uninitialised-memory dependence is only seen if it changes output in the runs made; shipped files whose printed text is not re-accepted are listed findings (one per file and diagnostic)."),
+                note="Also module sets with clashing top-level names under permutation (-fcompound-names), EXTENSIBILITY IMPLIED headers and a fixed value-notation module. Uninitialised-memory dependence is only seen if it changes output in the runs made; shipped files whose printed text is not re-accepted are listed findings (one per file and diagnostic); inconclusive when most generated sets are rejected."),
     "C11": dict(level="exploration", engine="compiler-monitor", ref="DESIGN.md 4/C11",
                 technique="differential monitor: exit status / diagnostic / output directory of the ASan-built asn1c against an independent executable model of the X.680 distinctness rules, over single-edit mutants",
                 text="Tag-structure modules under EXPLICIT/IMPLICIT/AUTOMATIC tagging with manual tags, reference chains and nested untagged CHOICEs are generated "
                      "unambiguous by construction; every single-edit mutant (retag, untag, type swap, make-OPTIONAL, duplicate identifier, duplicate enumeration "
                      "name/value, dangling reference) is judged by the model and by asn1c; acceptance must coincide, rejections must carry a diagnostic and write no file.",
-                note="Trusts vf/checks/c11faults.py:problems and vf/asn/model.py tag algebra; SEQUENCE extension markers, COMPONENTS OF, parameterised types not generated; mutants sampled (40/400 per base)."),
+                note="Trusts vf/checks/c11faults.py:problems and vf/asn/model.py tag algebra; COMPONENTS OF, parameterised types not generated; enumerations with negative values and ascending additions; systematic catalogue of carrier pairs; mutants sampled (40/400 per base)."),
     "C10": dict(level="exploration", engine="compiler-monitor", ref="DESIGN.md 4/C10",
                 technique="process-level monitor of the ASan-built asn1c (exit status, signals, sanitizer reports, diagnostics) plus build-and-walk monitor of the delivered file set",
                 text="Generated valid modules and single-fault mutants (tag collisions, duplicate identifiers/enumeration items, dangling references, inverted ranges, mistyped "
                      "DEFAULTs) are compiled under each documented option alone and random option subsets; on exit 0 exactly the delivered files are compiled as C99, "
                      "linked with the generic driver, the headers parsed as C++, and a descriptor-consistency walk (offsets, tag maps, optional-member tables, PER ranges, "
                      "enumeration maps) run over every PDU; on rejection a diagnostic is required.",
-                note="Warnings ignored; UBSan reports of the compiler recorded only; option subsets sampled; descriptor walk checks structural invariants, not semantics."),
+                note="Plus a fixed constructs module under every option, hand-written faulty modules and nine information-object-class shapes under three option sets. Warnings ignored; UBSan reports of the compiler recorded only, except null-pointer reports, which are confirmed on an uninstrumented -O0 build (death by signal = verdict); option subsets sampled; descriptor walk checks structural invariants, not semantics; inconclusive when most valid modules are rejected."),
     "C02": dict(level="exploration", engine="vdriver", ref="DESIGN.md 4/C02",
                 technique="differential monitor: asn_encode output compared byte for byte with independent reference encoders (DER, canonical UPER, canonical OER) over generated modules, ASan-watched",
                 text="Generated modules plus a fixed module of boundary shapes (16K-multiple lengths in strings and open types, long OPTIONAL runs, tag numbers at the "
@@ -126,7 +126,7 @@ CHECKS = {
                      "type shown under <value>, DER and UPER bytes equal to the reference framing, UPER/XER round trips; identifier of row i with bytes of row j, identifiers "
                      "without a row, and byte mutations of BER/UPER/XER encodings must fail (or succeed only if the row type's own decoder accepts the bytes) with no sanitizer "
                      "report and nothing allocated after FREE.",
-                note="OER is outside the statement; row types whose own codec does not round-trip a value (C01 findings) are not counted against the open type."),
+                note="Shapes added: recursive row type (pointer variant) and nested frames, built-in and repeated row types, untagged frames, OPTIONAL open type, -fwide-types builds, white space/comments around the XER wrapper, allocation failures during frame decodes. OER is outside the statement; row types whose own codec does not round-trip a value (C01 findings) are not counted against the open type."),
     "C19": dict(level="exploration", engine="tdriver", ref="DESIGN.md 4/C19",
                 technique="ThreadSanitizer + differential monitor: N threads run deterministic codec scripts over shared descriptors with seeded jitter between calls; per-thread result logs compared with the same scripts run alone; TSan reports with a library frame are violations",
                 text="TSan build of skeletons + generated code + vf/driver/tdriver.c; 2/4/8/16 threads behind a barrier each decode, encode (all syntaxes, shuffled), validate, "
